@@ -28,6 +28,7 @@ import (
 	"verif/harness/fw"
 	"verif/harness/gen"
 	"verif/harness/refmatch"
+	"verif/harness/simnet"
 )
 
 func init() { register("C15", checkC15) }
@@ -155,6 +156,13 @@ func checkC15() fw.Check {
 				sh := sh
 				id := fmt.Sprintf("C15/realtime-failing/q%d-e%d-fail%d", sh[0], sh[1], sh[2])
 				cases = append(cases, fw.Case{ID: id, Run: func(c *fw.Ctx) { runC15RealtimeFailing(c, id, sh[0], sh[1], sh[2]) }})
+			}
+			// "unanswered probes as 0": an end-to-end probe that only drew a time-exceeded from the target's own address is
+			// unanswered (shared with C04 / C05)
+			for _, proto := range []string{"icmp", "tcp"} {
+				proto := proto
+				id := "C15/e2e-te-from-target/" + proto
+				cases = append(cases, fw.Case{ID: id, Bubble: true, Run: func(c *fw.Ctx) { runC04E2eTEFromTarget(c, id, proto) }})
 			}
 			cases = append(cases, fw.Case{ID: "C15/realtime-publicip-failure", Run: func(c *fw.Ctx) { runC15RealtimePublicIPFailure(c, c.ID) }})
 			for i, rq := range reqs {
@@ -294,6 +302,12 @@ func runC15CaseR(c *fw.Ctx, id string, rq c15Req) (ran bool, rerrOut error) {
 		}
 		if s := sentinels[k]; s != nil {
 			switch {
+			case k%3 == 2 && e.spec.MinTTL != e.spec.MaxTTL && e.handle != nil:
+				// a path run whose SECOND send fails (the first probe is out, replies may already be in): the run has failed
+				// all the same - answers to the probes that did leave do not make it a success
+				env.w.Lock()
+				env.w.Faults[simnet.FaultKey{Handle: e.handle.Idx, Op: "write", K: 2}] = simnet.Fault{Err: fmt.Errorf("sendto (2nd probe of flow %d): %w", k, s), Persist: true}
+				env.w.Unlock()
 			case k%3 == 1:
 				// a failure that is ALSO a well-known errno (a netfilter rule refusing the send: EPERM; a broadcast target:
 				// EACCES): being recognisable as "permission denied" must not cost the other failures their place
